@@ -110,6 +110,8 @@ type Options struct {
 	OptionsFilter    bool   // install Container.OPTIONSFilter as first container filter
 	Encoding         bool
 	Recover          bool
+	// Setup runs right after the container was created (before the recording filters are added).
+	Setup func(c *restful.Container)
 	// Services is filled by Build: the WebService values in table order.
 	Services []*restful.WebService
 }
@@ -213,6 +215,9 @@ func Build(t model.TableSpec, opt *Options, rec *Recorder, h RouteHandler) (c *r
 	}
 	if opt.Encoding {
 		c.EnableContentEncoding(true)
+	}
+	if opt.Setup != nil {
+		opt.Setup(c)
 	}
 	if opt.OptionsFilter {
 		c.Filter(c.OPTIONSFilter)
